@@ -8,7 +8,7 @@ import ast
 
 from ..core import Run, AnalysisError, dotted, norm
 from ..alg import T, num, var, op, fun, app, normalize, same, same_terms, substitute
-from ..pyreader import PyReader, VVal, Sys, Raised
+from ..pyreader import PyReader, VVal, Sys, Raised, term_has
 from .c12 import H
 from ..reader import SYSTEMS
 
@@ -40,7 +40,11 @@ class Field:
     def __init__(self, system: Sys, value: list, tag: str = "F"):
         self.system, self.value, self.tag = system, value, tag
 
+    uniform = False  # a uniform field has the same value at every point (and constant curl / divergence)
+
     def at(self, point: list) -> list:
+        if self.uniform:
+            return [var(f"{self.tag}{i}") for i in range(3)]
         p = list(point) + [num(0)] * (3 - len(point))
         return [app(f"{self.tag}{i}", *p[:3]) for i in range(3)]
 
@@ -102,11 +106,15 @@ class AnalysisReader(PyReader):
         if name == "curl_operator" and len(n.args) == 1:
             fld = self.ev(n.args[0], env, fns)
             if isinstance(fld, Field):
-                return Field(fld.system, [], tag="curl" + fld.tag)
+                cf = Field(fld.system, [], tag="curl" + fld.tag)
+                cf.uniform = fld.uniform
+                return cf
         if name == "divergence_operator" and len(n.args) == 1:
             fld = self.ev(n.args[0], env, fns)
             if isinstance(fld, Field):
                 # an expression in the base scalars of the field's system
+                if fld.uniform:
+                    return var(f"div{fld.tag}")
                 return app(f"div{fld.tag}", *[var(x) for x in SYSTEMS[fld.system.kind]])
         if name == "integrate" and len(n.args) >= 2:
             integrand = self.ev(n.args[0], env, fns)
@@ -134,6 +142,21 @@ class AnalysisReader(PyReader):
             if isinstance(base, Sys) and n.attr == "coord_system":
                 return base
         return super().ev(n, env, fns)
+
+
+def _has_nonnegative_factor(t) -> bool:
+    """is one multiplicative factor of the term a square root or an absolute value?"""
+    if not isinstance(t, T):
+        return False
+    if t.op in ("sqrt", "abs"):
+        return True
+    if t.op == "pow" and t.args[1].op == "num" and t.args[1].val.denominator == 2:
+        return True
+    if t.op in ("mul", "neg"):
+        return any(_has_nonnegative_factor(x) for x in t.args)
+    if t.op == "div":
+        return _has_nonnegative_factor(t.args[0])
+    return False
 
 
 def check(run: Run) -> None:
@@ -262,6 +285,40 @@ def check(run: Run) -> None:
         run.violate("J5", f"{AN}:flux_across_surface_boundary", mod, mod.tree, "flux_across_surface_boundary does not integrate (div F)(r(u, v)) |r_u x r_v| with each parameter over its own limits"
                     + (f": the integrand is {normalize(R.integrals[0][0])!r} - where the divergence is left as a function of the base scalars instead of being evaluated at the points "
                        f"of the region, the result still contains coordinate variables unless the divergence is constant" if not isinstance(res, Raised) and len(R.integrals) == 1 else ""))
+    # ---- J5 (planar regions given by two components): the area element is |J|, a manifestly non-negative factor, not the signed Jacobian
+    R = fresh()
+    r2s = [fun(f"r{i}", ("u", "v")) for i in range(2)]
+    res = run_fn(R, "flux_across_surface_boundary", Field(cart, A), r2s, [u, a, b], [v, c, d])
+    run.ob("J5", "planar-region-area-element")
+    ok = not isinstance(res, Raised) and len(R.integrals) == 1
+    if ok:
+        integrand, limits = R.integrals[0]
+        jac = op("sub", op("mul", op("diff", r2s[0], u), op("diff", r2s[1], v)), op("mul", op("diff", r2s[0], v), op("diff", r2s[1], u)))
+        want = op("mul", app("divF", r2s[0], r2s[1], num(0)), jac)
+        ok = same_terms(op("mul", integrand, integrand), op("mul", want, want)) and _has_nonnegative_factor(integrand)
+    if not ok:
+        run.violate("J5", f"{AN}:flux_across_surface_boundary:planar-area-element", mod, mod.tree,
+                    "for a region given by two components the area element of flux_across_surface_boundary is not a manifestly non-negative |J| (square root of a sum of "
+                    "squares / Abs): with the signed Jacobian the integral of the divergence changes sign for parametrisations such as (theta, r), while the flux across the "
+                    "boundary does not")
+    # ---- J2 / J5 with limits of one parameter depending on the other and an integrand free of both parameters (uniform field over a flat region)
+    lo, hi = fun("lo", ("v", )), fun("hi", ("v", ))
+    flat = [u, v, num(0)]
+    for fname, rid in (("flux_across_surface", "J2"), ("flux_across_surface_boundary", "J5")):
+        R = fresh()
+        fld = Field(cart, A)
+        fld.uniform = True
+        res = run_fn(R, fname, fld, flat, [u, lo, hi], [v, c, d])
+        run.ob(rid, f"{fname}:dependent-limits")
+        ok = not isinstance(res, Raised) and len(R.integrals) == 1
+        if ok:
+            integrand, limits = R.integrals[0]
+            ok = sorted(map(repr, limits)) == sorted(map(repr, [(u, lo, hi), (v, c, d)])) and not ({k_[1] for pl in (normalize(integrand).n, normalize(integrand).d) for k_ in pl.atoms() if k_[0] == "v"} & {"u", "v"})
+        if not ok:
+            run.violate(rid, f"{AN}:{fname}:dependent-limits", mod, mod.tree,
+                        f"{fname} over a region whose first parameter runs between limits that depend on the second (u from lo(v) to hi(v)) with an integrand free of both "
+                        f"parameters does not integrate over those limits ({'raises ' + res.exc if isinstance(res, Raised) else str(len(R.integrals)) + ' integrate call(s)'}): "
+                        f"a shortcut such as integrand * (u1 - u0) * (v1 - v0) is only right for rectangles")
     # ---- J6
     for kind, coords in SYSTEMS.items():
         R = fresh()
